@@ -944,9 +944,9 @@ func c09Stage(c0 *Ctx) {
 		}
 		r.hist("stagedecl:accepted:" + strings.ReplaceAll(hyp, " ", ",") + "," + wf)
 		r.count("stagedeclacc:"+a.dump, true)
-		if strings.HasPrefix(hyp, "strs=true mb=true") && wf != "wf=true" {
+		if strings.HasPrefix(hyp, "strs=true mb=true mb32=true") && wf != "wf=true" { // hypothesis stageMB32Valid (F29's range = wfMB; F25 subsumed)
 			r.violate(Violation{Kind: "correspondence", Key: "C09:accepted-decl-not-wf",
-				What:  "the real parser accepts a stage text whose AST satisfies the exception hypotheses (stageStrsValid, stageMBValid) but not wfStage (the range theorem evaluated on the real parser's result)",
+				What:  "the real parser accepts a stage text whose AST satisfies the exception hypotheses (stageStrsValid, stageMB32Valid) but not wfStage (the range theorem evaluated on the real parser's result)",
 				Input: map[string]interface{}{"text": a.text, "kind": "stage"}, Impl: a.dump, Model: hyp + " " + wf,
 				Broken: "Props.C09.parse_produces_wf_stage_partial (AcceptedDeclTexts)"})
 		}
